@@ -8,6 +8,7 @@
 package main
 
 import (
+	"time"
 	"bufio"
 	"encoding/json"
 	"flag"
@@ -89,7 +90,15 @@ func main() {
 				panic(err)
 			}
 			fmt.Fprintf(os.Stderr, "STARTING %d %s\n", i, raw)
+			// a case that never returns (the code under test holding a lock forever, every wait of the
+			// harness notwithstanding) must not cost the whole harness time-out: give up on the process
+			watchdog := time.AfterFunc(caseLimit(), func() {
+				fmt.Fprintf(os.Stderr, "WATCHDOG: case %d did not finish within %v: the code under test is stuck\n", i, caseLimit())
+				out.Flush()
+				os.Exit(3)
+			})
 			c := fam.Exec(i, raw)
+			watchdog.Stop()
 			c.Family = os.Args[1]
 			c.Input = raw
 			enc.Encode(c)
@@ -170,4 +179,16 @@ func sortedCopy(xs []string) []string {
 	ys := append([]string{}, xs...)
 	sort.Strings(ys)
 	return ys
+}
+
+// caseLimit: far above the slowest legitimate case (a 520-message pipeline run, a race-detector
+// stress of the replicated state: about 100 s each)
+func caseLimit() time.Duration {
+	if v := os.Getenv("VERIF_CASE_LIMIT_S"); v != "" {
+		var n int
+		if _, err := fmt.Sscanf(v, "%d", &n); err == nil && n > 0 {
+			return time.Duration(n) * time.Second
+		}
+	}
+	return 420 * time.Second
 }
